@@ -3,8 +3,9 @@
 //! Answers are `(ok <Debug text>)`, `(err <kind> <offset>)` or `(panic)`; fields of one answer line are
 //! separated by TAB (Debug text never contains a raw TAB or newline: `{:?}` escapes them).
 //!
-//!   top     <k> <hex src>          parse_starts_at / parser on the unfiltered stream / lexer::lex_starts_at
-//!                                  for the three modes (pre-pass: the values of the model's parameters)
+//!   top     <k> <hex src>          parse_tokens(lex_starts_at(..)) (= parse_filtered_tokens, no clamp) and
+//!                                  lexer::lex_starts_at for the three modes (pre-pass: the values of the
+//!                                  model's parameters parseTop / lexTop)
 //!   entries <k> <hex src> [full-lexer 0/1, checked] [..]     every parsing entry point at offset 0 and at offset k
 //!   lexes   <k> <hex src> [..]     every lexing entry point at offset 0 and at offset k
 //!   names                          the typed parsers this binary dispatches to, in order
@@ -209,30 +210,20 @@ fn handle(ws: &[&str]) -> String {
             };
             let off = TextSize::from(k);
             let mut out = Vec::new();
+            // the value of the model's parameter `parseTop` at this text: what the LALRPOP parser answers when
+            // `parse_filtered_tokens` (= the public `parse_tokens`, nothing else) feeds it marker + stream.
+            // NOT `parse_starts_at`: its `not_before` clamp is part of the model.
             for m in MODES {
                 out.push(format!(
                     "{}={}",
                     m,
-                    show(guard(|| rustpython_parser::parse_starts_at(&src, mode_of(m), PATH, off)))
+                    show(guard(|| rustpython_parser::parse_tokens(
+                        lexer::lex_starts_at(&src, mode_of(m), off),
+                        mode_of(m),
+                        PATH
+                    )))
                 ));
             }
-            // the parser run on the UNFILTERED stream of the public lexer (differs from the above only
-            // under full-lexer, when the text has comments / blank lines)
-            out.push(format!(
-                "rm={}",
-                show(guard(|| ast::ModModule::parse_tokens(lexer::lex_starts_at(&src, Mode::Module, off), PATH)
-                    .map(ast::Mod::Module)))
-            ));
-            out.push(format!(
-                "re={}",
-                show(guard(|| ast::ModExpression::parse_tokens(lexer::lex_starts_at(&src, Mode::Expression, off), PATH)
-                    .map(ast::Mod::Expression)))
-            ));
-            out.push(format!(
-                "ri={}",
-                show(guard(|| ast::ModInteractive::parse_tokens(lexer::lex_starts_at(&src, Mode::Interactive, off), PATH)
-                    .map(ast::Mod::Interactive)))
-            ));
             for m in MODES {
                 out.push(format!("lex.{}={}", m, show_lex(lexer::lex_starts_at(&src, mode_of(m), off))));
             }
